@@ -420,6 +420,69 @@ impl LiveOverlay {
     }
 }
 
+/// Verification accessors (compiled only with `--cfg nomt_verif`): read-only views of the private
+/// index / status so that the harness can compare them with the Lean mirror of this module.
+#[cfg(nomt_verif)]
+impl Overlay {
+    /// `(seqn, index.values ascending by key, index.values_by_seqn front to back, ancestor_data.len())`
+    pub(crate) fn verif_index(&self) -> (u64, Vec<(KeyPath, u64)>, Vec<(u64, KeyPath)>, usize) {
+        (
+            self.inner.seqn,
+            self.inner
+                .index
+                .values
+                .iter()
+                .map(|(k, s)| (*k, *s))
+                .collect(),
+            self.inner.index.values_by_seqn.iter().cloned().collect(),
+            self.inner.ancestor_data.len(),
+        )
+    }
+
+    /// `(index.pages ascending by encoded page id, index.pages_by_seqn front to back)`
+    pub(crate) fn verif_page_index(&self) -> (Vec<([u8; 32], u64)>, Vec<(u64, [u8; 32])>) {
+        let mut pages: Vec<([u8; 32], u64)> = self
+            .inner
+            .index
+            .pages
+            .iter()
+            .map(|(p, s)| (p.encode(), *s))
+            .collect();
+        pages.sort();
+        (
+            pages,
+            self.inner
+                .index
+                .pages_by_seqn
+                .iter()
+                .map(|(s, p)| (*s, p.encode()))
+                .collect(),
+        )
+    }
+
+    /// 0 = live, 1 = dropped, 2 = committed.
+    pub(crate) fn verif_status(&self) -> usize {
+        self.inner.data.status.0.load(Ordering::Relaxed)
+    }
+
+    /// The status of the parent as this overlay sees it (`None`: no parent).
+    pub(crate) fn verif_parent_status(&self) -> Option<usize> {
+        self.inner
+            .data
+            .parent_status
+            .as_ref()
+            .map(|s| s.0.load(Ordering::Relaxed))
+    }
+}
+
+#[cfg(nomt_verif)]
+impl LiveOverlay {
+    /// `(has parent, ancestor_data.len(), min_seqn)`
+    pub(crate) fn verif_shape(&self) -> (bool, usize, u64) {
+        (self.parent.is_some(), self.ancestor_data.len(), self.min_seqn)
+    }
+}
+
 #[cfg(test)]
 mod tests {
     use lazy_static::lazy_static;
